@@ -80,7 +80,9 @@ MapReduce ==
   /\ ~done /\ pc <= Len(P.steps) /\ StepQ.kind = "mapreduce"
   /\ LET c == Ctx(P, asg, res, "") vals == res[StepQ.values + 1]
          hdr == HdrOfSubs(StepQ.subs, [c EXCEPT !.vars = [n \in {vals.hdr[k].c : k \in 1..Len(vals.hdr)} |-> NULL]]) IN
-     \E rows \in PerRow(vals, 1, c) : res' = Append(res, Rel(hdr, rows, FALSE))
+     IF IsErrRel(vals)
+     THEN res' = Append(res, Rel(<<>>, <<<<ERR>>>>, FALSE))          \* the partition list itself could not be computed
+     ELSE \E rows \in PerRow(vals, 1, c) : res' = Append(res, Rel(hdr, rows, FALSE))
   /\ pc' = pc + 1 /\ UNCHANGED <<tid, asg, done>>
 
 Orig == EvalQ(P.orig, Ctx(P, asg, <<>>, P.defdb))
